@@ -680,7 +680,7 @@ func (e *env) execTransition(op, arg string) (string, string) {
 					e.bad("transition-limit", "plan of %d entries (underflow %v) executed with limit %d", planned, underflow, e.max)
 				}
 				// on a root nobody else touched since the scan, the disk obeys the limit
-				if sameWalk(before, e.scanSnap) && uint64(len(after))+1 > e.max {
+				if sameWalk(before, e.scanSnap) && len(after) > len(before) && uint64(len(after))+1 > e.max {
 					e.bad("transition-limit", "root grew to %d entries with limit %d", len(after)+1, e.max)
 				}
 			}
